@@ -30,6 +30,13 @@ def generate(rng, tier):
             c2 = dict(c); c2[f] = a
             if ebbgen.t3_in_domain(c2["T"], c2["rate"], c2["accel"], c2["jerk"]):
                 c = dict(c2, over=[{f: b}], family="after-call-differing-in-one-argument/%s" % f)
+        # a session: the other calculators of the module ran a moment ago (a planner predicting the distance of the neighbouring moves),
+        # once or several times, and the application may have set mpmath's working precision itself; none of it concerns this function
+        r2 = rng.random()
+        if r2 < 0.12:
+            c["session"] = [rng.choice(["lt", "lt", "t3", "lm"]) for _ in range(rng.choice([1, 2, 2, 3]))]; c["family"] += "/after-other-calculators"
+        elif r2 < 0.18:
+            c["amb"] = rng.choice([("dps", 4), ("dps", 60), ("prec", 4), ("prec", 11), ("prec", 15)]); c["family"] += "/ambient-mpmath-precision"
         cases.append(c)
     # moves that leave the 2^31-1 range (the reason the helper exists: its report is compared with the limit): the rate passes the
     # limit at the first tick, at the last tick, or at an interior extremum; magnitudes kept below 2^36 so that the float
@@ -56,7 +63,23 @@ def generate(rng, tier):
     return cases
 
 def run_impl(c):
+    import mpmath
+    save = mpmath.mp.prec
+    try:
+        return _run_impl(c)
+    finally:
+        mpmath.mp.prec = save
+
+def _run_impl(c):
+    import mpmath
     kw = c.get("kw", 0)
+    if "amb" in c: setattr(mpmath.mp, c["amb"][0], c["amb"][1])
+    for which in c.get("session", []):
+        try:
+            if which == "lt": ebb_calc.move_dist_lt(c["rate"] % 2**31, 1000, max(1, c["T"] % 50000), "clear")
+            elif which == "t3": ebb_calc.move_dist_t3(max(1, c["T"] % 5000), c["rate"] % 2**31, 10, 1)
+            else: ebb_calc.calculate_lm(5, 100000000, 1000)
+        except Exception: pass
     for ov in c.get("over", []):
         d = dict(c, **ov)
         try: ebbgen.call(ebb_calc.max_rate_t3, (d["T"], d["rate"], d["accel"], d["jerk"]), kw)
